@@ -26,6 +26,7 @@ def main():
     from vf.harness import Ctx
     ctx = Ctx(a.tier, a.seed)
     ALT = "/hostproc"
+    ALT_TCK = "1024"        # (Linux/alpha's USER_HZ: ten ticks per 1/100 s, and not a divisor of anything decimal)
 
     def alt_on():
         """second configuration of a check: procfs mounted elsewhere (psutil.PROCFS_PATH), PSUTIL_DEBUG on, and -- the
@@ -42,7 +43,7 @@ def main():
             if isinstance(case, dict) and "_mount" in case:
                 if not sys.flags.optimize:
                     ctx.close()
-                    os.environ["VF_CLK_TCK"] = "250"
+                    os.environ["VF_CLK_TCK"] = ALT_TCK
                     os.execv(sys.executable, [sys.executable, "-O", "-m", "vf.child"] + sys.argv[1:])
                 alt_on()
                 os.dup2(os.open(os.devnull, os.O_WRONLY), 2)
@@ -71,7 +72,7 @@ def main():
                 v["case"] = {"_mount": ALT, "case": v.get("case")}
                 if isinstance(v.get("alt_case"), dict):
                     v["alt_case"] = {"_mount": ALT, "history": v["alt_case"]["history"]}
-                v["msg"] = "[procfs at %s, PSUTIL_DEBUG, python -O, 250 ticks/s] %s" % (ALT, v.get("msg"))
+                v["msg"] = "[procfs at %s, PSUTIL_DEBUG, python -O, %s ticks/s] %s" % (ALT, ALT_TCK, v.get("msg"))
         else:
             res = mod.run(ctx)
             res.setdefault("level", mod.LEVEL)
@@ -80,14 +81,14 @@ def main():
                 ctx.close()
                 out2 = a.out + ".alt"
                 p = subprocess.run([sys.executable, "-O", "-m", "vf.child", a.id, "--tier", a.tier, "--seed", str(a.seed),
-                                    "--alt-only", "--out", out2], env=dict(os.environ, VF_CLK_TCK="250"))
+                                    "--alt-only", "--out", out2], env=dict(os.environ, VF_CLK_TCK=ALT_TCK))
                 if p.returncode != 0 or not os.path.exists(out2):
                     raise RuntimeError("second-configuration pass failed (rc=%s)" % p.returncode)
                 res2 = json.load(open(out2))
                 os.unlink(out2)
                 res["violations"] = res.get("violations", []) + res2.get("violations", [])
                 c2 = res2.get("coverage", {})
-                res["coverage"]["alt_procfs_mount"] = {"mount": ALT, "PSUTIL_DEBUG": True, "python_optimize": 1, "clock_ticks_per_second": 250,
+                res["coverage"]["alt_procfs_mount"] = {"mount": ALT, "PSUTIL_DEBUG": True, "python_optimize": 1, "clock_ticks_per_second": int(ALT_TCK),
                                                        "violations": len(res2.get("violations", [])),
                                                        **{k: c2[k] for k in ("evaluations", "distinct_nontrivial", "states", "transitions") if k in c2}}
     finally:
